@@ -350,7 +350,7 @@ func (vc *VC) globalRef(g *ssa.Global) Term {
 
 // bytesOf: the content of a byte slice as a string (function of the byte heap).
 func (vc *VC) bytesOf(heap func(string, Sort) Term, sl Term) Term {
-	hn, hs := vc.env.cellHeap(types.Typ[types.Uint8])
+	hn, hs := vc.env.elemHeap(types.Typ[types.Uint8])
 	if !vc.env.declared["bytesOf"] {
 		vc.env.DeclFun("bytesOf", []Sort{hs, SSlice}, SStr)
 		vc.env.Axiom(fmt.Sprintf("(forall ((h %s) (s Slice)) (! (=> (>= (sl-len s) 0) (= (slen (bytesOf h s)) (sl-len s))) :pattern ((bytesOf h s))))", hs))
